@@ -67,7 +67,7 @@ Proof. unfold entry_add. destruct (e_files pe); simpl; done. Qed.
 Lemma add_wf m e : WF m → fresh e → WF (add m e).1.
 Proof.
   intros HW Hf. unfold add.
-  destruct (e_path e) as [|n dir] eqn:Hp; [exact HW|].
+  destruct (e_path e) as [|n dir] eqn:Hp; [by destruct (e_file e)|].
   destruct (m_ents m !! dir) as [pe|] eqn:Hd; [|exact HW].
   destruct (negb (e_dir pe) || e_link pe) eqn:Hpd; [exact HW|].
   apply orb_false_iff in Hpd as [Hpd1 Hpd2]. apply negb_false_iff in Hpd1.
